@@ -467,7 +467,10 @@ fn judge(case: &Case, cfg: Cfg, o: &Outcome, t: &[u32], log: &[Got], out: &mut O
         match case.kind {
             Kind::Event => {
                 match deliveries.as_slice() {
-                    [Got::Event { fields, .. }] => {
+                    [Got::Event { fields, level, .. }] => {
+                        if *level != case.level {
+                            pr.push(format!("the delivered event's metadata level is {} (1 = ERROR .. 5 = TRACE), the macro form says {}", level, case.level));
+                        }
                         count_visits(fields, out);
                         note_alt(&o.first, fields, out);
                         if let Some(p) = cmp_fields("event", &o.first, fields) {
@@ -483,7 +486,10 @@ fn judge(case: &Case, cfg: Cfg, o: &Outcome, t: &[u32], log: &[Got], out: &mut O
                     pr.push("the macro returned a disabled span although the callsite is enabled".into());
                 }
                 match deliveries.split_first() {
-                    Some((Got::NewSpan { id, fields, .. }, rest)) => {
+                    Some((Got::NewSpan { id, fields, level, .. }, rest)) => {
+                        if *level != case.level {
+                            pr.push(format!("the new span's metadata level is {} (1 = ERROR .. 5 = TRACE), the macro form says {}", level, case.level));
+                        }
                         count_visits(fields, out);
                         note_alt(&o.first, fields, out);
                         if let Some(p) = cmp_fields("new_span", &o.first, fields) {
